@@ -137,6 +137,21 @@ def hdrBits (partialFrame : Bool) (bytesShifted numSamples : Nat) (escape : Bool
 
 def coefBits (coefs : List Int) (n : Nat) : Bits := (coefs.take n).flatMap fun c => bitsOf (wrapU 16 c) 16
 
+/-- the predictor input of a mono element and the shifted-off low bytes: 16 / 20 bit `x >> (32 - depth)`; 24 / 32 bit the
+    same with the low 8 / 16 bits taken off -/
+def monoMix (depth : Nat) (xs : List Int) : List Int := xs.map fun x => asr (asr x (32 - depth)) (8 * bytesShiftedOf depth)
+def monoShift (depth : Nat) (xs : List Int) : List Nat := xs.map fun x => wrapU 32 (asr x (32 - depth)) % 2 ^ (8 * bytesShiftedOf depth)
+
+/-- the compressed mono element for a given coefficient row and predictor order (what EncodeMono writes once its search
+    has picked them): header, mixBits = mixRes = 0, mode 0 / denShift 9, pbFactor 4 / order, coefficients, the shifted-off
+    bytes, the Golomb-coded residuals of pc_block -/
+def compMonoBits (depth frameSize : Nat) (xs coefs : List Int) (numU : Nat) : Bits :=
+  let bs := bytesShiftedOf depth
+  let chanBits := depth - 8 * bs
+  hdrBits (xs.length ≠ frameSize) bs xs.length false ++ bitsOf 0 16 ++ bitsOf 9 8 ++ bitsOf (4 * 32 + numU) 8 ++ coefBits coefs numU ++
+    (if bs ≠ 0 then (monoShift depth xs).flatMap fun s => bitsOf s (8 * bs) else []) ++
+    dynComp stdAg (pcBlock (monoMix depth xs) coefs numU chanBits 9).1 chanBits
+
 /-- EncodeMono: the element behind tag and instance tag; `xs` = the channel's caller ints -/
 def encMono (depth frameSize : Nat) (st : EncChan) (xs : List Int) : Bits × EncChan :=
   let n := xs.length
@@ -144,10 +159,7 @@ def encMono (depth frameSize : Nat) (st : EncChan) (xs : List Int) : Bits × Enc
   let shift := 8 * bs
   let chanBits := depth - shift
   let partialFrame := n ≠ frameSize
-  -- the predictor input and the shifted-off low bytes
-  let full := xs.map fun x => asr x (32 - depth)
-  let mix := full.map fun v => asr v shift
-  let shiftBuf := full.map fun v => wrapU 32 v % 2 ^ shift
+  let mix := monoMix depth xs
   -- search over the predictor order
   let try1 (rows : List (List Int)) (numU : Nat) : Nat × List (List Int) :=
     let (_, rows) := pcRepeat (mix.take (n / 32)) rows (numU - 1) numU chanBits 7
@@ -162,12 +174,10 @@ def encMono (depth frameSize : Nat) (st : EncChan) (xs : List Int) : Bits × Enc
   if minBits ≥ escapeBits then (escBits, { st with coefsU := rows })
   else
     let coefs := rows.getD (bestU - 1) []
-    let (pc, co) := pcBlock mix coefs bestU chanBits 9
-    let rows := rows.set (bestU - 1) co
-    let bits := hdrBits partialFrame bs n false ++ bitsOf 0 16 ++ bitsOf 9 8 ++ bitsOf (4 * 32 + bestU) 8 ++ coefBits coefs bestU ++
-      (if bs ≠ 0 then shiftBuf.flatMap fun s => bitsOf s shift else []) ++ dynComp stdAg pc chanBits
+    let rows1 := rows.set (bestU - 1) (pcBlock mix coefs bestU chanBits 9).2
+    let bits := compMonoBits depth frameSize xs coefs bestU
     -- "compressed frame too big": back to the start of the element
-    if bits.length ≥ escapeBits then (escBits, { st with coefsU := rows }) else (bits, { st with coefsU := rows })
+    if bits.length ≥ escapeBits then (escBits, { st with coefsU := rows1 }) else (bits, { st with coefsU := rows1 })
 
 /-- the mixing of a pair for the encoder: (u, v, shifted-off (l, r)) per frame -/
 def mixPairs (depth bs mixres : Nat) (ls rs : List Int) : List Int × List Int × List (Nat × Nat) :=
